@@ -46,6 +46,8 @@ use std::time::{Duration, Instant};
 mod share;
 #[path = "../c12/frames.rs"]
 mod frames;
+#[path = "../c12/globals.rs"]
+mod globals;
 
 // ------------------------------------------------------------ tracked token
 
